@@ -164,7 +164,9 @@ def BedLine.rec? : BedLine → Option BedRec
 /-- the records of a file, comments dropped -/
 def records (lines : List BedLine) : List BedRec := lines.filterMap BedLine.rec?
 
-/-- name column: `fields[3]` when present, else `"-"` (`read_bed`; `table["gene"] = "-"` in the pileup path) -/
+/-- name column: `fields[3]` when present, else `"-"` (`read_bed`; `table["gene"] = "-"` in the pileup path).
+    (Repaired code, fix C09-W: `bedcov` reads the name column as text; before, `read_csv` turned names such as
+    `007`, `12`, `1e3`, `NA` into `7.0`, `12.0`, `1000.0`, `-`, and differently from chunk to chunk.) -/
 def BedRec.gene (r : BedRec) : String := r.rest.head?.getD "-"
 
 def BedRec.toRow (r : BedRec) : Row := { chrom := r.chrom, s := r.s, e := r.e, gene := r.gene }
